@@ -392,13 +392,26 @@ def run_property(mod, tier='quick', seed=0, replay=None):
             inputs = [('corpus/' + fn, c) for fn, c in corpus_cases(pid)]
             gen = mod.generate(rng, tier)
             inputs += [('gen', c) for c in gen]
-        outs = mod.run_impl_all([c for _, c in inputs]) if hasattr(mod, 'run_impl_all') else \
-            [mod.run_impl(c) for _, c in inputs]
+        if hasattr(mod, 'run_impl_all'):
+            outs = mod.run_impl_all([c for _, c in inputs])
+        else:
+            outs = []
+            for _, c in inputs:
+                try:
+                    outs.append(mod.run_impl(c))
+                except Exception as e:  # pylint: disable=broad-except
+                    # an exception the harness does not expect from the implementation on a valid input
+                    import traceback
+                    outs.append({'_exception': '%s: %s' % (type(e).__name__, str(e)[:300]),
+                                 '_where': traceback.format_exc()[-600:]})
         terms, tidx = [], []
         hist = {}
         nontriv = set()
         py_bad = []
         for i, ((src, c), o) in enumerate(zip(inputs, outs)):
+            if isinstance(o, dict) and '_exception' in o:
+                py_bad.append((i, 'implementation raised ' + o['_exception']))
+                continue
             k = mod.nontrivial(c, o) if hasattr(mod, 'nontrivial') else canon_key(c)
             if k is not None:
                 nontriv.add(canon_key([k]) if not isinstance(k, str) else k)
